@@ -31,6 +31,7 @@ void run_once(const Plan &p, const string &dir, const Site *site, simfs::Counter
   std::vector<B> bs;
   for (size_t i = 0; i < p.ops.size(); i++) if (p.ops[i].kind == O_WRITE && !p.ops[i].ups.empty() && is_marker(p.ops[i].ups[0].key)) { B b; b.opidx = (int)i; b.ups = p.ops[i].ups; b.marker = b.ups[0].key; bs.push_back(b); }
   string where = site ? site_str(*site) : string("fault-free");
+  sim::budget_reset();
   simfs::clear_faults();
   simfs::fired().clear();
   DbOptions opt; opt.set(p.cfg, true);
@@ -197,7 +198,7 @@ Plan gen_ioerr(uint64_t seed, const string &prop) {
     else o.kind = O_REOPEN;
     p.ops.push_back(o);
   }
-  p.seti("max_sites", nops <= 12 ? 60 : 36);
+  p.seti("max_sites", g_thorough ? 400 : nops <= 12 ? 60 : 36);
   p.seti("noise", r.chance(0.4));
   return p;
 }
